@@ -19,6 +19,9 @@ CHECKS = {
  "C17": ("reference-model monitor (Go map/set) over branching histories on a pool of part.Map/part.Set versions, JSON/YAML round trips; race detector on shared values",
          "Exploration: seeded branching histories (every step derives from a random earlier version; sizes biased to 0..2 so each representation switch is crossed by every operator pair; MapTxn reuse after Commit interleaved with operations on the committed map; early-break iteration) with every pooled version re-verified after every step; plus 8 goroutines sharing one value under -race.",
          "Trusts the Go map model; string keys are valid UTF-8; only encoder-produced JSON/YAML is decoded.", "5/C17"),
+ "C18": ("bounded-exhaustive enumeration monitor: encoded composite keys of all enumerated (secondary, primary) pairs must be strictly increasing in specification order and split back; black-box order read-back through List/Prefix/LowerBound; encoder domains",
+         "Exploration with a bounded-exhaustive core: all pairs of byte strings of length 0..3 over {00,01,02,ff} (quick; 0..4 over {00,01,02,7f,ff} thorough) are encoded with the real encoder (exposed under the verif tag) and compared in specification order, which decides injectivity and order preservation for every pair of the enumerated space; Uint16 over its whole domain, 32/64-bit encoders over boundary sets and seeded samples, LPM keys for all prefix lengths 0..32 x sampled words. Long primaries are probed at listed lengths only.",
+         "The enumerated space is small by design (short strings); long keys only at the listed probe lengths (those failing are known findings D9). Signed encoders are only checked for injectivity, as the statement says.", "5/C18"),
 }
 
 NOT_YET = "check not built yet in this session (planned: see DESIGN.md section 5)"
